@@ -4,6 +4,7 @@ import (
 	"bytes"
 	"fmt"
 	"io"
+	"sync"
 	"time"
 
 	"github.com/bluenviron/gomavlib/v3"
@@ -302,15 +303,16 @@ func c08Chain() func(h []dsim.Rec) {
 	}
 	// the sink reads everything
 	var sinkBytes []byte
-	sinkDone := false
+	var sinkMu sync.Mutex
 	dsim.Go("sink", func() {
 		buf := make([]byte, 1024)
 		for {
 			n, err := sinkPeer.Read(buf)
 			dsim.EnsureReleased("sink")
+			sinkMu.Lock()
 			sinkBytes = append(sinkBytes, buf[:n]...)
+			sinkMu.Unlock()
 			if err != nil {
-				sinkDone = true
 				return
 			}
 		}
@@ -372,10 +374,11 @@ func c08Chain() func(h []dsim.Rec) {
 	}
 	dsim.Sleep(3 * time.Second)
 	dsim.Settle("quiescence")
+	sinkMu.Lock()
 	got := append([]byte(nil), sinkBytes...)
+	sinkMu.Unlock()
 	// the routers are not closed: closing one ends the custom transport of its neighbour, which
 	// then re-opens the same dead transport in a zero-time loop (see DESIGN.md, C14 "not demanded")
-	_ = sinkDone
 	return func(h []dsim.Rec) {
 		out, offs, rest, err := ref.ParseStream(got)
 		if err != nil || len(rest) != 0 {
